@@ -52,11 +52,14 @@ func genCfg(seed int64, k int) cfg {
 	c.RcvBuf = []int{0, 4096, 8192, 30000, 70000, 131072, 300000}[r.Intn(7)] // the larger ones make the stack scale its own window
 	pool := []uint32{0, 1, 1<<31 - 5, 1 << 31, 1<<32 - 5, 1<<32 - 1}
 	c.PeerISS, c.OwnISS = r.U32(), r.U32()
+	// distances to the wrap / sign change from "inside the first segment" to "several receive
+	// windows away": the edge of a window crosses the boundary at a different moment in each
+	spans := []int{3000, 20000, 150000, 700000}
 	if r.Bool() {
-		c.PeerISS = pool[r.Intn(len(pool))] - uint32(r.Intn(3000))
+		c.PeerISS = pool[r.Intn(len(pool))] - uint32(r.Intn(spans[r.Intn(len(spans))]))
 	}
 	if r.Bool() {
-		c.OwnISS = pool[r.Intn(len(pool))] - uint32(r.Intn(3000))
+		c.OwnISS = pool[r.Intn(len(pool))] - uint32(r.Intn(spans[r.Intn(len(spans))]))
 	}
 	c.Steps = 10 + r.Intn(40)
 	// last draw, so that the other fields keep their values for a given k
@@ -156,6 +159,12 @@ func scenario(c cfg) {
 		}
 	}
 	pathMTU := 0 // smallest next-hop MTU an ICMP error has reported for this connection
+	// the edge the peer offers NOW: that of its latest segment whose acknowledgement number is
+	// not older than an earlier one (everything is delivered in order and processed before the
+	// next step, so the stack has seen it). Bytes the stack has never transmitted before must
+	// stay within it; earlier transmissions are only held to the largest edge ever offered.
+	curEdge, curExact := int64(0), false
+	var maxAckSent, maxSentEnd int64
 	checkEmitted := func(segs []rawpeer.Seg, ctx string) {
 		for _, s := range segs {
 			if s.Err != nil {
@@ -174,6 +183,13 @@ func scenario(c cfg) {
 				if end > maxEdge {
 					viol("send/beyond-right-edge", fmt.Sprintf("%s: data segment covers stream bytes [%d,%d) but the largest right edge the peer ever offered is %d (window scale shift %d)", ctx, rel, end, maxEdge, shift))
 					return
+				}
+				if curExact && end > maxSentEnd && end > curEdge {
+					viol("send/new-data-beyond-current-right-edge", fmt.Sprintf("%s: first transmission of stream bytes [%d,%d) although the peer's latest segment offers the right edge %d (it offered up to %d earlier and took that back)", ctx, rel, end, curEdge, maxEdge))
+					return
+				}
+				if end > maxSentEnd {
+					maxSentEnd = end
 				}
 				if int(n) > conn.PeerMSS {
 					key := "send/exceeds-peer-mss"
@@ -234,6 +250,9 @@ func scenario(c cfg) {
 		if e := relAck + int64(wnd)<<shift; flags&rfc.ACK != 0 && e > maxEdge {
 			maxEdge = e
 		}
+		if flags&rfc.ACK != 0 && relAck >= maxAckSent {
+			maxAckSent, curEdge, curExact = relAck, relAck+int64(wnd)<<shift, true
+		}
 	}
 	sendAck := func(ack int64, wnd uint16, note string) {
 		psend(peerSent, ack, rfc.ACK, wnd, nil)
@@ -255,9 +274,15 @@ func scenario(c cfg) {
 			appRead += int64(len(v))
 		}
 	}
+	bulkLeft := 0
 	windows := []uint16{0, 0, 1, uint16(conn.PeerMSS - 1), uint16(conn.PeerMSS), 1000, 4000, 20000, 65535}
 	for step := 0; step < c.Steps && !bad; step++ {
-		switch r.Intn(14) {
+		op := r.Intn(14)
+		if bulkLeft > 0 && reading {
+			bulkLeft--
+			op = 8
+		}
+		switch op {
 		case 13: // a router on the path reports a smaller MTU (fragmentation needed / packet too big)
 			if written == 0 {
 				continue
@@ -336,6 +361,17 @@ func scenario(c cfg) {
 				continue
 			}
 			room := maxAdvEdge - peerSent
+			if room <= 0 && reading && !bad {
+				// the application has been reading all along: nothing is unread, so a closed
+				// window has no reason; give the stack the chance to announce the space
+				readAll()
+				rawpeer.Settle()
+				checkEmitted(conn.Take(), "after reading with a closed window")
+				if room = maxAdvEdge - peerSent; room <= 0 && appRead == peerSent && !bad {
+					viol("recv/window-closed-although-everything-was-read", fmt.Sprintf("the application has read all %d bytes the peer sent, yet the advertised right edge stays at %d: the window is closed and never reopens", appRead, maxAdvEdge))
+					continue
+				}
+			}
 			if room <= 0 {
 				// window closed: a byte beyond the edge must never be delivered
 				pl := []byte{0xEE, 0xEE, 0xEE}
@@ -390,6 +426,10 @@ func scenario(c cfg) {
 				}
 			}
 			run.Count("in_window_segments_injected", 1)
+			if bulkLeft == 0 && reading && r.Chance(1, 4) {
+				bulkLeft = 20 + r.Intn(200) // a burst of in-order segments, each read at once
+				step -= bulkLeft            // (not counted as steps)
+			}
 		case 10: // peer data wholly beyond the advertised right edge: never deliverable
 			if maxAdvEdge < 0 {
 				continue
